@@ -197,11 +197,35 @@ pub fn always_matches(binding_sets: &[BindingSet]) -> bool {
     binding_sets.iter().any(|bs| bs.requirements.is_empty())
 }
 
+/// Resolve the local index of every variable pinned (`&x`) by these binding sets. Must be called
+/// with the scopes as they are *before* the pattern's own bindings are registered: a pattern may
+/// bind the very name it pins (`[p, &p] = …`), and the pin refers to the existing variable.
+pub fn resolve_pins(
+    scopes: &[super::scopes::Scope],
+    binding_sets: &[BindingSet],
+) -> Result<HashMap<String, usize>, Error> {
+    let mut pins = HashMap::new();
+    for binding_set in binding_sets {
+        for requirement in &binding_set.requirements {
+            if let RuntimeCheck::Variable(name) = &requirement.check
+                && !pins.contains_key(name)
+            {
+                let (_var_type, var_index) = super::scopes::lookup_variable(scopes, name, &[])
+                    .ok_or_else(|| Error::InternalError {
+                        message: format!("Pin variable '{}' not found in scope", name),
+                    })?;
+                pins.insert(name.clone(), var_index);
+            }
+        }
+    }
+    Ok(pins)
+}
+
 /// Generate bytecode for pattern matching
 pub fn generate_pattern_code(
     codegen: &mut InstructionBuilder,
     program: &mut Program,
-    scopes: &[super::scopes::Scope],
+    pins: &HashMap<String, usize>,
     binding_sets: &[BindingSet],
     fail_addr: usize,
 ) -> Result<(), Error> {
@@ -250,10 +274,9 @@ pub fn generate_pattern_code(
                 }
                 RuntimeCheck::Variable(name) => {
                     generate_value_access(codegen, &requirement.path);
-                    let (_var_type, var_index) = super::scopes::lookup_variable(scopes, name, &[])
-                        .ok_or_else(|| Error::InternalError {
-                            message: format!("Pin variable '{}' not found in scope", name),
-                        })?;
+                    let var_index = *pins.get(name).ok_or_else(|| Error::InternalError {
+                        message: format!("Pin variable '{}' not resolved", name),
+                    })?;
                     codegen.add_instruction(Instruction::Load(var_index));
                     codegen.add_instruction(Instruction::Equal(2));
                 }
